@@ -294,3 +294,14 @@ pub proof fn lemma_traks_len_push(v: Seq<TrakBox>, t: TrakBox)
 {
     lemma_traks_len_prefix(v.push(t), v, v.len() as int);
 }
+
+// ---- emsg (ISO/IEC 23009-1 5.10.3.3): FullBox; v0: two strings then 4 x u32; v1: u32 u64 u32 u32 then two strings; message to the end
+pub open spec fn emsg_fixed_len(version: u8, scheme: Seq<char>, value: Seq<char>) -> int {
+    12 + 4 + (if version == 0 { 12int } else { 16int }) + (utf8(scheme).len() + 1) + (utf8(value).len() + 1)
+}
+pub open spec fn emsg_len(b: EmsgBox) -> int { emsg_fixed_len(b.version, b.scheme_id_uri@, b.value@) + b.message_data@.len() }
+pub open spec fn emsg_wire(b: EmsgBox) -> bool {
+    &&& flags_wire(b.flags) && b.version <= 1
+    &&& (b.version == 0 ==> b.presentation_time_delta is Some) && (b.version == 1 ==> b.presentation_time is Some)
+    &&& len_fits(emsg_len(b))
+}
